@@ -4,7 +4,8 @@
    a test, not a proof.  No theorem lives here. *)
 From Memchr Require Import Base.Res Params Sub.Pair Gen.Ops Gen.CodePair Gen.CodePrefilter
   Gen.CodeByteSet Gen.CodeSuffix Gen.CodeShift Gen.CodeTwoWayNew.
-From Memchr Require Gen.CodeRabinKarp.
+From Memchr Require Gen.CodeRabinKarp Gen.CodeIterNext Gen.CodeIterHint.
+From Memchr Require Import Spec.
 Local Open Scope N_scope.
 
 Definition rk_id (b : N) : N := b.
@@ -53,4 +54,33 @@ Definition gc_rkrnew (x : list N) : list N :=
   | Ok f => [1; CodeRabinKarp.Hash_0 (CodeRabinKarp.Finder_hash (CodeRabinKarp.FinderRev_0 f));
              CodeRabinKarp.Finder_hash_2pow (CodeRabinKarp.FinderRev_0 f)]
   | Panic _ => [2]
+  end.
+
+(* memmem iterators: the translated size_hint and next, with the specification (leftmost / rightmost
+   occurrence) as the searcher oracle; k calls, flattened *)
+Definition o_find_spec (x hay : list N) : option N := option_map N.of_nat (find_spec x hay).
+Definition o_rfind_spec (x hay : list N) : option N := option_map N.of_nat (rfind_spec x hay).
+
+Fixpoint gc_fiter (k : nat) (x h : list N) (pos : N) : list N :=
+  match k with
+  | O => []
+  | S k' =>
+      match CodeIterHint.rs_FindIter_size_hint (CodeIterHint.mkFindIter h pos x),
+            CodeIterNext.rs_FindIter_next (o_find_spec x) (CodeIterNext.mkFindIter h pos x) with
+      | Ok (lo, hi), Ok (r, it') =>
+          lo :: match hi with Some v => v | None => 2 ^ 64 end ::
+          match r with Some i => [1; i] | None => [0; 0] end ++ gc_fiter k' x h (CodeIterNext.FindIter_pos it')
+      | _, _ => [99]
+      end
+  end.
+
+Fixpoint gc_riter (k : nat) (x h : list N) (pos : option N) : list N :=
+  match k with
+  | O => []
+  | S k' =>
+      match CodeIterNext.rs_FindRevIter_next (o_rfind_spec x) (CodeIterNext.mkFindRevIter h pos) with
+      | Ok (r, it') =>
+          match r with Some i => [1; i] | None => [0; 0] end ++ gc_riter k' x h (CodeIterNext.FindRevIter_pos it')
+      | Panic _ => [99]
+      end
   end.
